@@ -759,7 +759,17 @@ class Parser:
         if self.eat("pub"):
             vis = True
             if self.at("("): self.skip_balanced()
-        if self.at("use") or self.at("mod") or self.at("type") or self.at("static") or self.at("extern"):
+        if self.at("static"):
+            # `static NAME: T = expr;` is treated like a `const`
+            self.next(); self.eat("mut")
+            name = self.ident()
+            self.expect(":")
+            ty = self.parse_type()
+            self.expect("=")
+            e = self.parse_expr()
+            self.expect(";")
+            return N("const", line, name=name, ty=ty, e=e)
+        if self.at("use") or self.at("mod") or self.at("type") or self.at("extern"):
             if self.at("mod"):
                 # mod name; | mod name { ... }
                 self.next(); name = self.ident()
